@@ -195,8 +195,11 @@ def r_txn(E):
     # a simulation's normal exit resets
     res.instances += 1
     tail = init.body[-1]
-    ok_tail = isinstance(tail, ast.If) and "simulation_date" in norm(tail.test) and any(
-        _self_method_call(c) == "reset_values" for c in _calls(tail))
+    last_mut = max([s.lineno for s in init.body for c in _calls(s) if _self_method_call(c) and T.is_mut(_self_method_call(c))
+                    and _self_method_call(c) != "reset_values"] or [0])
+    ok_tail = any(isinstance(st, ast.If) and "simulation_date" in norm(st.test) and st.lineno > last_mut and any(
+        _self_method_call(c) == "reset_values" for c in _calls(st)) for st in init.body) and not any(
+        isinstance(n, ast.Return) for n in ast.walk(init))
     if not ok_tail:
         res.findings.append(Finding(
             "R-TXN", "ModelingUpdate.__init__ :: no final reset_values for simulations",
@@ -310,7 +313,18 @@ def r_mirror(E):
     if not (sa["recv_list"] == sb["arg_list"] and sa["arg_list"] == sb["recv_list"]):
         probs.append(f"set replaces {sa['recv_list']} by {sa['arg_list']} but reset replaces {sb['recv_list']} by "
                      f"{sb['arg_list']}")
-    if "previous" not in sa["recv_list"] or "new" not in sb["recv_list"]:
+    rel0, init = pm.find_function(MU, "ModelingUpdate.__init__")
+    prev_list = None
+    for n in ast.walk(init):
+        if isinstance(n, ast.Assign) and isinstance(n.targets[0], ast.Attribute) and norm(n.targets[0]) in sa["zargs"]:
+            first = n.value
+            while isinstance(first, ast.BinOp):
+                first = first.left
+            if isinstance(first, ast.ListComp) and norm(first.elt).endswith("[0]"):
+                prev_list = norm(n.targets[0])
+    if prev_list is None:
+        res.undecided.append("cannot tell which zipped list holds the previous values")
+    elif sa["recv_list"] != prev_list or sb["arg_list"] != prev_list:
         probs.append("set must replace the previous values by the new ones and reset the new ones by the previous")
     if not ((sa["guard"] == f"not {sb['guard']}") or (sb["guard"] == f"not {sa['guard']}")):
         probs.append(f"guards are not opposite ({sa['guard']} / {sb['guard']})")
@@ -449,12 +463,15 @@ def r_zip(E):
             rel2, tw.lineno, "ModelingUpdate.link_simulated_and_baseline_twins"))
     else:
         # both directions are assigned
-        txt = norm(loop)
-        for need in ("simulation_twin = recomputed_value", "baseline_twin = value_to_recompute"):
+        a, b = [e.id for e in loop.target.elts] if isinstance(loop.target, ast.Tuple) else (None, None)
+        links = {(norm(n.targets[0].value), n.targets[0].attr, norm(n.value)) for n in ast.walk(loop)
+                 if isinstance(n, ast.Assign) and isinstance(n.targets[0], ast.Attribute)}
+        for need, what in (((a, "simulation_twin", b), "baseline value -> its simulated twin"),
+                           ((b, "baseline_twin", a), "simulated value -> its baseline twin")):
             res.instances += 1
-            if need not in txt:
-                res.findings.append(Finding("R-ZIP", f"twins :: {need}", f"twin link `{need}` missing", rel2, loop.lineno,
-                                            "ModelingUpdate.link_simulated_and_baseline_twins"))
+            if need not in links:
+                res.findings.append(Finding("R-ZIP", f"twins :: {need[1]}", f"twin link missing or crossed: {what}", rel2,
+                                            loop.lineno, "ModelingUpdate.link_simulated_and_baseline_twins"))
     res.floor = 6
     return res
 
@@ -623,8 +640,9 @@ def r_entry(E):
     rel, fn = pm.find_function(CM, "ContextualModelingObjectAttribute.__setattr__")
     res.instances += 1
     iff = fn.body[0] if fn.body and isinstance(fn.body[0], ast.If) else None
-    fwd_ok = iff is not None and len(fn.body) == 1 and iff.orelse and \
-        norm(iff.orelse[0]) == "setattr(self._value, name, input_value)"
+    ps = [a.arg for a in fn.args.args]
+    fwd_ok = iff is not None and len(fn.body) == 1 and iff.orelse and len(ps) == 3 and \
+        norm(iff.orelse[0]) == f"setattr({ps[0]}._value, {ps[1]}, {ps[2]})"
     if fwd_ok:
         lst = iff.test.comparators[0] if isinstance(iff.test, ast.Compare) else None
         names = {e.value for e in lst.elts} if isinstance(lst, (ast.List, ast.Tuple, ast.Set)) else None
@@ -644,13 +662,25 @@ def r_entry(E):
     while node is not None and node.orelse and len(node.orelse) == 1 and isinstance(node.orelse[0], ast.If):
         node = node.orelse[0]
     final = node.orelse if node is not None else []
-    ok = any(isinstance(c.func, ast.Name) and c.func.id == "ModelingUpdate" and c.args
-             and norm(c.args[0]) == "[[current_attr, input_value]]" for s in final for c in _calls(s))
+    ps = [a.arg for a in fn.args.args]
+    cur = {norm(n.targets[0]) for n in ast.walk(fn) if isinstance(n, ast.Assign) and isinstance(n.value, ast.Call)
+           and norm(n.value.func) == "getattr" and len(n.value.args) >= 2 and norm(n.value.args[0]) == ps[0]
+           and norm(n.value.args[1]) == ps[1]}
+    ok = False
+    for st in final:
+        for c in _calls(st):
+            if isinstance(c.func, ast.Name) and c.func.id == "ModelingUpdate" and c.args and isinstance(c.args[0], ast.List) \
+                    and len(c.args[0].elts) == 1 and isinstance(c.args[0].elts[0], ast.List) \
+                    and len(c.args[0].elts[0].elts) == 2:
+                a, b = c.args[0].elts[0].elts
+                if norm(a) in cur and norm(b) == ps[2]:
+                    ok = True
     if not ok:
         res.findings.append(Finding(
             "R-ENTRY", "ModelingObject.__setattr__ update branch",
             "ModelingObject.__setattr__ no longer routes a post-init assignment into "
-            "ModelingUpdate([[current_attr, input_value]])", rel, fn.lineno, "ModelingObject.__setattr__"))
+            "ModelingUpdate([[<current value of the attribute>, <new value>]])", rel, fn.lineno,
+            "ModelingObject.__setattr__"))
     else:
         cond = norm(node.test)
         if "self.calculated_attributes" not in cond or "trigger_modeling_updates" not in cond:
@@ -809,8 +839,8 @@ def r_guard(E):
                                 "system and two systems")
     rel, sd = pm.find_function(MO, "ModelingObject.self_delete")
     res.instances += 1
-    guard = next((s for s in sd.body if isinstance(s, ast.If) and norm(s.test) == "self.modeling_obj_containers"
-                  and any(isinstance(x, ast.Raise) for x in s.body)), None)
+    guard = next((s for s in sd.body if isinstance(s, ast.If) and "self.modeling_obj_containers" in norm(s.test)
+                  and "not " not in norm(s.test) and any(isinstance(x, ast.Raise) for x in s.body)), None)
     first_detach = min([c.lineno for c in _calls(sd) if isinstance(c.func, ast.Attribute)
                         and c.func.attr == "set_modeling_obj_container"] or [10 ** 9])
     if guard is None or guard.lineno > first_detach:
@@ -899,8 +929,10 @@ def r_rev(E):
                                                                    "derived properties"})
     rel, moc = pm.find_function(MO, "ModelingObject.modeling_obj_containers")
     res.instances += 1
-    t = norm(moc)
-    if "self.contextual_modeling_obj_containers" not in t or "modeling_obj_container is not None" not in t:
+    reads_registry = any(isinstance(n, ast.Attribute) and n.attr == "contextual_modeling_obj_containers" for n in ast.walk(moc))
+    filtered = any(isinstance(n, ast.Compare) and isinstance(n.ops[0], ast.IsNot) and norm(n.comparators[0]) == "None"
+                   and norm(n.left).endswith(".modeling_obj_container") for n in ast.walk(moc))
+    if not reads_registry or not filtered:
         res.findings.append(Finding(
             "R-REV", "ModelingObject.modeling_obj_containers filter",
             "modeling_obj_containers must be the holders of the *attached* link wrappers (filter on "
